@@ -40,7 +40,7 @@ def plan(tier, seed):
 def minimums(tier):
     return {"strace.runs": 150, "strace.injected_runs": 100, "strace.kill_runs": 40, "strace.error_runs": 60,
             "trace.unlink_checked": 20, "poststate.checked": 150, "twin.runs": 1500, "twin.fault_runs": 1000,
-            "twin.remove_events": 200, "must_not_delete.cases": 20}
+            "twin.remove_events": 200, "must_not_delete.cases": 20, "nostdout.runs": 15}
 
 
 # (mode, pel variant, stdout kind)
@@ -550,11 +550,46 @@ def run_twin(spec, ctx, rng, u):
         shutil.rmtree(d, ignore_errors=True)
 
 
+def run_nostdout(spec, ctx, rng, u):
+    """--file --clean in a process that was started WITHOUT a standard output (descriptor 1 closed: `peltool ... >&-`, a
+    daemon or cron wrapper).  Python then runs with sys.stdout = None and print() writes nothing: the document was never
+    emitted, so the input stays.  Post-state oracle only (no trace needed)."""
+    from vf import env
+    root = harness.scratch_root()
+    for k in range(spec["n"]):
+        for extra in ([], ["-x"]):
+            pel, data, exp = make_pel(rng, u, "small")
+            P = os.path.join(root, "nostdout_%d.pel" % k)
+            with open(P, "wb") as f:
+                f.write(data)
+            argv = [env.PY, env.PELTOOL, "-f", P, rng.choice(["-c", "--clean"])] + extra
+            ctx.current = {"argv": argv[2:], "stdout": "descriptor 1 closed at start"}
+            ctx.case("nostdout|%s|%d|%d" % (extra, k, spec["rseed"]), True)
+            try:
+                p = subprocess.run(argv, env=env.child_env(), stdin=subprocess.DEVNULL, stderr=subprocess.PIPE,
+                                   preexec_fn=lambda: os.close(1), timeout=120)
+            except subprocess.TimeoutExpired:
+                ctx.violation("C12/no-stdout-run-hung", "peltool %s without a standard output did not finish" % argv[2:])
+                continue
+            ctx.count("nostdout.runs")
+            if not os.path.exists(P):
+                ctx.violation("C12/input-gone-output-lost", "file%s/small/no-stdout: the process had no standard output (descriptor 1 "
+                              "closed), nothing was emitted, yet the input was removed (rc=%d stderr=%r)" %
+                              ("hex" if extra else "", p.returncode, p.stderr.decode("utf-8", "replace")[-200:]))
+            else:
+                with open(P, "rb") as f:
+                    if f.read() != data:
+                        ctx.violation("C12/input-modified", "no-stdout run modified the input")
+                os.unlink(P)
+
+
 def run(spec, ctx):
     harness.repo()
     rng = random.Random(spec["rseed"])
     u = pm.Uniq(spec["shard"] * 10_000_000)
     if spec["mode"] == "strace":
+        if spec["scen"] % 4 == 0:
+            run_nostdout({"n": 3 if spec["n"] <= 2 else 20, "rseed": spec["rseed"]}, ctx, rng, u)
         run_strace(spec, ctx, rng, u)
     else:
         run_twin(spec, ctx, rng, u)
